@@ -82,6 +82,11 @@ theorem valid_fixed_numbering (rank : Nat → Nat) (g0 : Graph V) (hwf : Ranked 
     (hops : ∀ op ∈ ops, opRanked rank op) : Valid F g0 ops :=
   (valid_of_fixed_rank hwf ops hops).1
 
+/-- a message that does not decode (`parameter.Value.ApplyMessage` returns the error before writing)
+    changes nothing: not the value, not the version, no dependant; so by `read_fresh` every later
+    read still returns the from-scratch value of the UNCHANGED parameter valuation -/
+theorem rejected_message_noop (g : Graph V) (p : Nat) : step F g (.rejectedMessage p) = (g, []) := rfl
+
 /-- **never stale**, for EVERY processor (skipping ones included; no `ReadsAll`): after any history,
     the value `Value()` of any node returns is the from-scratch value of the current graph.  The
     statement is about the value returned by the read (which executes the node when it is
